@@ -7,6 +7,7 @@ from __future__ import annotations
 
 import asyncio
 import contextvars
+import gc
 import hashlib
 import heapq
 import math
@@ -337,27 +338,36 @@ class SimLoop(base_events.BaseEventLoop):
 
     # ------------------------------------------------------------ teardown
     def teardown(self) -> None:
-        """Dispose of everything still pending without running any repid code."""
+        """Dispose of everything still pending without letting it touch a later run."""
         self.dead_nodes = _Everything()
         self._ready.clear()
         self._scheduled.clear()
-        for t in self.all_tasks:
-            if not t.done():
-                t._log_destroy_pending = False
-                try:
-                    t.get_coro().close()
-                except BaseException:  # noqa: BLE001
-                    pass
-            else:
-                if not t.cancelled():
+        for _ in range(3):
+            tasks, self.all_tasks = self.all_tasks, []
+            for t in tasks:
+                if not t.done():
+                    t._log_destroy_pending = False
+                    try:
+                        t.get_coro().close()
+                    except BaseException:  # noqa: BLE001
+                        pass
+                elif not t.cancelled():
                     t.exception()  # mark retrieved
-        self.all_tasks.clear()
+            tasks = None
+            gc.collect()
+            if not self.all_tasks:
+                break
         self._ready.clear()
         self._scheduled.clear()
+        self.net.transports.clear()
+        self.net.listeners.clear()
+        self.step_hooks.clear()
+        self.post_hooks.clear()
         try:
             self.close()
         except Exception:  # noqa: BLE001
             pass
+        gc.collect()
 
 
 class _Everything:
@@ -758,11 +768,12 @@ class Sim:
 
     def run(self, coro):
         loop = self.loop
+        gc.disable()  # GC timing must not depend on earlier runs; collected explicitly in close()
         asyncio.set_event_loop(loop)
-        try:
-            return loop.run_until_complete(coro)
-        finally:
-            asyncio.set_event_loop(None)
+        return loop.run_until_complete(coro)
 
     def close(self):
-        self.loop.teardown()
+        try:
+            self.loop.teardown()
+        finally:
+            asyncio.set_event_loop(None)
